@@ -193,7 +193,7 @@ def run_check(pid, tier, seed, jobs=None):
     for r in results:
         for k, v in (r.get('counters') or {}).items():
             if isinstance(v, (int, float)):
-                counters[k] = counters.get(k, 0) + v
+                counters[k] = max(counters.get(k, 0), v) if k.startswith('max_') else counters.get(k, 0) + v
     nontrivial = set()
     for r in results:
         if r['verdict'] in ('held', 'known', 'violated') and r.get('nontrivial'):
